@@ -35,7 +35,8 @@ class Conn:
     __slots__ = ("cid", "sock", "accepted_at", "registered", "running", "closed_at", "closed_by", "sent", "inbuf",
                  "peer_closed", "handled", "idle_since", "listener", "dispatched_at_iter", "data_arrived_iter",
                  "close_under_handler", "responses_done", "last_keepalive", "early_close", "polls_ready", "waits_ready",
-                 "read_unanswered", "parked_seq", "started_seq", "queued_dispatch", "parks", "busy_behind", "repark_behind")
+                 "read_unanswered", "parked_seq", "started_seq", "queued_dispatch", "parks", "busy_behind", "repark_behind",
+                 "waits_below")
 
     def __init__(self, cid, sock, now, listener):
         self.cid = cid
@@ -63,6 +64,7 @@ class Conn:
         self.parked_seq = None          # event number at which it was put back into the poller as an idle keep-alive connection
         self.started_seq = None         # event number at which its current handler started running
         self.queued_dispatch = False    # handed to the pool, handler not started yet
+        self.waits_below = 0            # of waits_ready: iterations in which fewer than worker_connections connections were open
         self.parks = 0                  # times it was put back into the poller as an idle keep-alive connection
         self.busy_behind = False        # became busy again while an older, not yet expired idle connection was parked before it
         self.repark_behind = False      # ... and was parked again after that request
@@ -305,6 +307,7 @@ class ControlledExecutor:
                 c.queued_dispatch = True
                 c.polls_ready = 0
                 c.waits_ready = 0
+                c.waits_below = 0
                 self.k.log.append((self.k.now, "dispatch", c.cid))
         self.q.put((f, fn, args))
         return f
@@ -853,9 +856,13 @@ class Kernel:
                                      "and was not dispatched although a handler thread is free" % (c.cid, c.polls_ready))
                 else:
                     c.waits_ready += 1
+                    nopen = self.open_count()
+                    if nopen < self.worker_connections:
+                        # (the loop decided not to poll before this point was reached: a handler that finished in between has
+                        # closed its connection since - one such iteration says nothing; "below capacity" is when it goes on)
+                        c.waits_below += 1
                     if c.waits_ready > 3 and idle_thread:
-                        nopen = self.open_count()
-                        self.violate("ready-connection-not-served/at-capacity" if nopen >= self.worker_connections
+                        self.violate("ready-connection-not-served/at-capacity" if c.waits_below <= 3
                                      else "ready-connection-not-served/below-capacity",
                                      "connection %d has had unread request bytes for %d loop iterations in which the loop did not "
                                      "poll (open connections = %d, worker_connections = %d) although a handler thread is free" % (
